@@ -34,8 +34,10 @@ m = dict(
                enable='own CMake build (/verif/CMakeLists.txt) compiles /repo/src with -DOMPL_VERIF=1 into /verif/build/{asan,tsan,plain}',
                baseline_off_cmd='cmake --build /repo/_build && ctest --test-dir /repo/_build -j8 --timeout 900',
                source_commits=hooks_commits, add_only=True),
-    engines=[dict(name=n, path='harness/%s.cpp' % n, serves_properties=sorted(p for p in P.PROPS if P.PROPS[p]['engine'] == n),
-                  kind_free_text=P.ENGINES.get(n, '')) for n in sorted(set(c['engine'] for c in P.PROPS.values()))],
+    engines=[dict(name=n, path='harness/%s.cpp' % n,
+                  serves_properties=sorted(p for p in P.PROPS if n in [P.PROPS[p]['engine']] + list(P.PROPS[p].get('extra_engines', []))),
+                  kind_free_text=P.ENGINES.get(n, ''))
+             for n in sorted(set(e for c in P.PROPS.values() for e in [c['engine']] + list(c.get('extra_engines', []))))],
     checks=checks,
     notes='Runtime monitoring and sanitizers only. Exit 0 held / 1 VIOLATION / 2 harness failure or coverage floor not met. '
           'Known findings: /verif/known_findings.json. VERIF_SEED selects the generator seed.',
